@@ -142,6 +142,13 @@ Definition filter_query (cache : balances) (q : bquery) : bquery :=
 Definition merge_balances (cache : balances) (ans : balances) : balances :=
   fold_left (fun c (e : cell * Z) => if bmem c (fst (fst e)) (snd (fst e)) then c else c ++ [e]) ans cache.
 
+(* only what was asked for is cached: a store may answer with more (the bundled StaticStore returns
+   its whole content) *)
+Definition requested (q : bquery) (k : cell) : bool :=
+  match alookup (fst k) q with Some l => mem_str (snd k) l | None => false end.
+Definition restrict_answer (q : bquery) (ans : balances) : balances :=
+  filter (fun e : cell * Z => requested q (fst e)) ans.
+
 Definition run_balances_query (sb : store) (rs : rstate) : result string rstate :=
   let fq := filter_query (rs_cache rs) (rs_query rs) in
   match fq with
@@ -150,7 +157,7 @@ Definition run_balances_query (sb : store) (rs : rstate) : result string rstate 
       let call := CallBalances fq in
       match sb (rs_ncalls rs) call with
       | AnsBalances b =>
-          Ok (mkrstate (merge_balances (rs_cache rs) b) [] (S (rs_ncalls rs)) (call :: rs_log rs))
+          Ok (mkrstate (merge_balances (rs_cache rs) (restrict_answer fq b)) [] (S (rs_ncalls rs)) (call :: rs_log rs))
       | AnsError msg => Err msg
       | AnsMeta _ => Panic "store: wrong kind of answer"
       end
